@@ -205,6 +205,8 @@ Outcome check_c01(const Case &c, Stats &st) {
     st.inc("refused_in_monitor");
   }
   st.inc("fault_f5_ntow_fired", hooks().unusual_fired);
+  st.inc("gamma_refused_queries", hooks().refused_queries);
+  st.inc("gamma_tag_checks", hooks().tag_checks);
   st.result_hashes.push_back(h);
   out.hash = h;
   return out;
